@@ -760,3 +760,23 @@ pub fn coords_to_pairs(v: Vec<MatrixCoordinates>) -> Vec<(usize, usize)> {
 pub fn thr_generic<T: MatrixElement + PartialOrd, C: PositiveLength>(s: &StripedScores<T, C>, t: T) -> Vec<(usize, usize)> {
     coords_to_pairs(Pipeline::<Dna, Generic>::generic().threshold(s, t))
 }
+
+/// `encode_into` with a destination SHORTER than the text (a misuse the library answers with a panic): the call
+/// must not write past the destination whatever it answers. Returns whether it panicked.
+pub fn encode_into_short<A: Alphabet>(cfg: ECfg, bytes: &[u8], dst_len: usize) -> bool {
+    fn go<A: Alphabet, P: Encode<A>>(p: &P, bytes: &[u8], dst_len: usize) -> bool {
+        let mut dst = vec![A::default_symbol(); dst_len];
+        let r = std::panic::catch_unwind(std::panic::AssertUnwindSafe(|| {
+            let _ = p.encode_into(bytes, &mut dst[..]);
+        }));
+        r.is_err()
+    }
+    match cfg {
+        ECfg::Generic => go::<A, _>(&Pipeline::<A, Generic>::generic(), bytes, dst_len),
+        ECfg::Sse2 => go::<A, _>(&Pipeline::<A, Sse2>::sse2().unwrap(), bytes, dst_len),
+        ECfg::Avx2 => go::<A, _>(&Pipeline::<A, Avx2>::avx2().unwrap(), bytes, dst_len),
+        ECfg::DispGen => with_arm(Forced::Generic, || go::<A, _>(&Pipeline::<A, Dispatch>::dispatch(), bytes, dst_len)),
+        ECfg::DispSse => with_arm(Forced::Sse2, || go::<A, _>(&Pipeline::<A, Dispatch>::dispatch(), bytes, dst_len)),
+        ECfg::DispAvx => with_arm(Forced::Avx2, || go::<A, _>(&Pipeline::<A, Dispatch>::dispatch(), bytes, dst_len)),
+    }
+}
